@@ -6,6 +6,8 @@ the expected (name, value) list without using the parser.
 """
 import zlib
 
+import pinned
+
 # ------------------------------------------------------------------ CRC / framing (independent reference)
 
 
@@ -339,7 +341,13 @@ class Builder:
                 else:
                     put(an, cells[i][1])
                 continue
-            if o.ty == "cha":
+            pin = pinned.FIELD_PINS.get(o.name)
+            if pin is not None and pin[1] == o.width:
+                # "the value its bits encode": for the fields whose kind the standard fixes (harness/pinned.py) the
+                # expectation reads the bits the standard's way, whatever the current table says
+                res = f["res"] if pin[2] is None else pinned.res_json(pin[2])
+                put(an, scale_ref(interp_ref(pinned.KIND_TY[pin[0]], o.width, o.bits), res))
+            elif o.ty == "cha":
                 put(an, chr(o.bits))
             elif o.ty == "str":
                 put(o.name, out.get(o.name, "") + ("" if o.bits == 0 else chr(o.bits)))
